@@ -7,6 +7,7 @@ import (
 	"sort"
 	"strconv"
 	"strings"
+	"time"
 
 	"github.com/ohler55/slip"
 	"github.com/ohler55/slip/pkg/flavors"
@@ -254,10 +255,77 @@ func c18Any(s *slip.Scope, name string) (any, bool) {
 	return inst.Any, true
 }
 
+// c18BridgeTable: plain Go data of the kinds the statement lists, through slip.SimpleObject and back through Simplify; returns
+// the cases that did not come back as the same data (integers of every Go integer type count as the same number, times are
+// compared as instants). false and the empty map are left to the findings C18-F3 / C18-F1.
+func c18BridgeTable() []string {
+	t1 := time.Date(2024, 3, 5, 1, 2, 3, 0, time.UTC)
+	t2 := time.Date(1999, 12, 31, 23, 59, 59, 123456789, time.UTC)
+	t3 := time.Date(2024, 6, 1, 12, 0, 0, 0, time.FixedZone("plus2", 7200))
+	cases := []struct {
+		name string
+		in   any
+		want any
+	}{
+		{"nil", nil, nil}, {"true", true, true}, {"int", int(5), int64(5)}, {"int8", int8(-3), int64(-3)}, {"int16", int16(300), int64(300)},
+		{"int32", int32(-70000), int64(-70000)}, {"int64-min", int64(-9223372036854775808), int64(-9223372036854775808)},
+		{"uint", uint(7), int64(7)}, {"uint8", uint8(255), int64(255)}, {"uint32", uint32(4000000000), int64(4000000000)},
+		{"float32", float32(1.5), float64(1.5)}, {"float64", float64(0.1), float64(0.1)}, {"string", "str", "str"}, {"empty-string", "", ""},
+		{"time-utc", t1, t1}, {"time-nanoseconds", t2, t2}, {"time-zone", t3, t3},
+		{"slice", []any{int64(1), "a", nil, true}, []any{int64(1), "a", nil, true}},
+		{"empty-slice", []any{}, []any{}},
+		{"map", map[string]any{"k": []any{t1, int64(2)}, "m": map[string]any{"x": 1.5}}, map[string]any{"k": []any{t1, int64(2)}, "m": map[string]any{"x": 1.5}}},
+	}
+	var same func(a, b any) bool
+	same = func(a, b any) bool {
+		switch ta := a.(type) {
+		case time.Time:
+			tb, ok := b.(time.Time)
+			return ok && ta.Equal(tb)
+		case []any:
+			tb, ok := b.([]any)
+			if !ok || len(ta) != len(tb) {
+				return false
+			}
+			for i := range ta {
+				if !same(ta[i], tb[i]) {
+					return false
+				}
+			}
+			return true
+		case map[string]any:
+			tb, ok := b.(map[string]any)
+			if !ok || len(ta) != len(tb) {
+				return false
+			}
+			for k, v := range ta {
+				w, has := tb[k]
+				if !has || !same(v, w) {
+					return false
+				}
+			}
+			return true
+		}
+		return a == b
+	}
+	bad := []string{}
+	for _, c := range cases {
+		var got any
+		o := h.Try(func() slip.Object { got = slip.Simplify(slip.SimpleObject(c.in)); return nil })
+		if !o.OK() {
+			bad = append(bad, c.name+": "+o.Class+": "+o.Msg)
+		} else if !same(c.want, got) {
+			bad = append(bad, fmt.Sprintf("%s: %v (%T) came back as %v (%T)", c.name, c.in, c.in, got, got))
+		}
+	}
+	return bad
+}
+
 func c18(args []string) {
 	out := h.NewOut()
 	defer out.Flush()
 	s := slip.NewScope()
+	bridge2 := c18BridgeTable()
 	h.Lines(func(line []byte) {
 		var st c18Stim
 		if err := json.Unmarshal(line, &st); err != nil {
@@ -268,7 +336,8 @@ func c18(args []string) {
 		s.Let(slip.Symbol("btext"), slip.String(text))
 		var raw map[string]json.RawMessage // the stimulus is echoed as it came
 		_ = json.Unmarshal(line, &raw)
-		ev := h.V{"id": st.ID, "start": raw["start"], "hist": raw["hist"], "steps": []any{}, "rt": h.V{"st": "not run"}}
+		ev := h.V{"id": st.ID, "start": raw["start"], "hist": raw["hist"], "steps": []any{}, "rt": h.V{"st": "not run"}, "bridge2": bridge2}
+		bridge2 = []string{} // reported with the first history of the worker
 		if o := h.Eval(s, "(setq b (make-bag btext))"); !o.OK() {
 			ev["rt"] = h.V{"st": "make-bag: " + o.Msg}
 			out.Emit(ev)
